@@ -157,7 +157,7 @@ def rint(rng, big=True):
     return rng.randrange(0, 1 << 62)
 
 
-def random_frame(rng, w, allow=None, last=False, stream_only_len=True, maxdata=300):
+def random_frame(rng, w, allow=None, last=False, stream_only_len=True, maxdata=300, big_ack=False):
     """one random non-STREAM-LEN-less frame (unless last) -> (bytes, truth)"""
     kinds = allow or ["PADDING", "PING", "ACK", "RESET_STREAM", "STOP_SENDING", "CRYPTO", "NEW_TOKEN", "STREAM", "MAX_DATA", "MAX_STREAM_DATA",
                       "MAX_STREAMS", "DATA_BLOCKED", "STREAM_DATA_BLOCKED", "STREAMS_BLOCKED", "NEW_CONNECTION_ID", "RETIRE_CONNECTION_ID",
@@ -170,6 +170,11 @@ def random_frame(rng, w, allow=None, last=False, stream_only_len=True, maxdata=3
         return ping()
     if k == "ACK":
         nr = rng.choice([0, 0, 1, 2, 5])
+        if big_ack and rng.random() < 0.05:
+            # a receiver that saw every other packet of a long burst: hundreds of ranges of small numbers (Range Count is a varint, RFC 9000 19.3 sets no limit)
+            nr = rng.choice([63, 64, 65, 255, 256, 257, 300, 700])
+            return ack(w, rint(rng), rint(rng, False), rng.randrange(0, 64), [(rng.randrange(0, 64), rng.randrange(0, 64)) for _ in range(nr)],
+                       [rint(rng), rint(rng), rint(rng)] if rng.random() < 0.3 else None)
         return ack(w, rint(rng), rint(rng, False), rint(rng, False), [(rint(rng, False), rint(rng, False)) for _ in range(nr)],
                    [rint(rng), rint(rng), rint(rng)] if rng.random() < 0.3 else None)
     if k == "RESET_STREAM":
